@@ -68,6 +68,23 @@ class Fn:
     def tests(self, pred: Callable[[ast.expr], bool]) -> list:
         return [n for n in self.cfg.nodes if n.kind == "test" and pred(n.ast)]
 
+    def presence(self, target: str) -> list:
+        """[(test node, label of the branch on which `target` is present/truthy)] for `target`, `target is not None`,
+        `target is None`, `target != None`, `target == None` tests (an Optional object held in an attribute)."""
+        out = []
+        for n in self.cfg.nodes:
+            if n.kind != "test":
+                continue
+            e = n.ast
+            if dotted(e) == target:
+                out.append((n, "true"))
+            elif isinstance(e, ast.Compare) and len(e.ops) == 1 and dotted(e.left) == target and isinstance(e.comparators[0], ast.Constant) and e.comparators[0].value is None:
+                if isinstance(e.ops[0], (ast.IsNot, ast.NotEq)):
+                    out.append((n, "true"))
+                elif isinstance(e.ops[0], (ast.Is, ast.Eq)):
+                    out.append((n, "false"))
+        return out
+
     def branch(self, test_node, label: str):
         for lbl, s in test_node.succ:
             if lbl == label:
@@ -167,6 +184,72 @@ def _pairs(target, value):
                 yield from _pairs(t, None)
     else:
         yield target, value
+
+
+# ----------------------------------------------------------------------------------------------
+# case tables: `if subj == A: ... elif isinstance(subj, C): ... else: ...`, also as a run of early-exit ifs
+def _terminates(body) -> bool:
+    return bool(body) and isinstance(body[-1], (ast.Return, ast.Raise, ast.Continue, ast.Break))
+
+
+def _case_key(test: ast.expr, subject: str):
+    """('eq', value expr) | ('isinstance', class expr) | None for a test on the subject (either operand order)."""
+    if isinstance(test, ast.Compare) and len(test.ops) == 1 and isinstance(test.ops[0], (ast.Eq, ast.Is)):
+        l, r = test.left, test.comparators[0]
+        if norm_text(l) == subject:
+            return ("eq", r)
+        if norm_text(r) == subject:
+            return ("eq", l)
+    if isinstance(test, ast.Call) and dotted(test.func) == "isinstance" and len(test.args) == 2 and norm_text(test.args[0]) == subject:
+        return ("isinstance", test.args[1])
+    return None
+
+
+def case_table(stmts: list, subject: str):
+    """[(kind, key expr | None, body stmts)] for a chain of tests on `subject` in a statement list; kind 'default' has key None and
+    holds the statements executed when no test matched (the else branch, or what follows a run of terminating ifs).
+    Returns None when the statement list does not start such a chain."""
+    out = []
+    i = 0
+    while i < len(stmts):
+        st = stmts[i]
+        if isinstance(st, ast.If):
+            k = _case_key(st.test, subject)
+            if k is None:
+                break
+            out.append((k[0], k[1], st.body))
+            cur = st
+            while len(cur.orelse) == 1 and isinstance(cur.orelse[0], ast.If) and _case_key(cur.orelse[0].test, subject) is not None:
+                cur = cur.orelse[0]
+                k = _case_key(cur.test, subject)
+                out.append((k[0], k[1], cur.body))
+            if cur.orelse:
+                out.append(("default", None, cur.orelse))
+                return out
+            # no else: when every arm so far terminates, the following statements are the remaining cases / the default
+            if all(_terminates(b) for _, _, b in out):
+                i += 1
+                continue
+            return out
+        break
+    if not out:
+        return None
+    rest = stmts[i:]
+    if rest:
+        out.append(("default", None, rest))
+    return out
+
+
+def find_case_table(fn_node, subject: str):
+    """First statement list in the function that starts a case table on `subject` (skipping leading non-if statements)."""
+    for holder in walk_no_nested(fn_node):
+        for field in ("body", "orelse"):
+            blk = getattr(holder, field, None)
+            if isinstance(blk, list):
+                for i, st in enumerate(blk):
+                    if isinstance(st, ast.If) and _case_key(st.test, subject) is not None:
+                        return case_table(blk[i:], subject)
+    return None
 
 
 # ----------------------------------------------------------------------------------------------
